@@ -414,3 +414,22 @@ SPECS["C09"] = dict(
         c09("replay_normal_k3", 4, tier="thorough", seedk=11), c09("replay_gamma_k2", 5, tier="thorough", seedk=7),
     ],
 )
+
+SPECS["C11"] = dict(
+    level="model_checking",
+    encodes=["datatypes/msg_queue.c:msg_queue_fini", "mm/msg_allocator.c (all functions)", "mm/buddy/multi.c:rs_realloc accounting vs tree", "lib/random/random.c:Random (shift/overflow checks)",
+             "every function listed under the other properties runs with CBMC's bounds, pointer (NULL, dangling, deallocated, out-of-object), signed-overflow, shift and division checks on"],
+    assumptions=["C11 is the union of the built-in safety checks of every harness of this framework (they run on the real code paths those harnesses execute) plus the dedicated queries listed here; code no harness reaches (mpi.c wire handling, stats file I/O error paths, arch/*, log.c) is outside",
+                 "pointer comparisons between different arenas (buddy_find_by_address) are standard-level UB no sanitizer confirms: arenas are pooled in one object in the harnesses, so CBMC does not see them"],
+    outside=["code not reached by any harness", "allocation failure paths", "real 64 KiB arenas"],
+    level_text="CBMC's memory-safety and undefined-behaviour checks on every real code path executed by the harnesses of this framework, plus dedicated shutdown-ownership, allocator and generator queries",
+    queries=[
+        Q("queue_fini", "c11_shutdown.c", func="harness_queue_fini", unwind=6, unwindset={"memcpy.0": 42}, timeout=900,
+          bounds="<= 3 messages left in the private heap / inter-thread buffer at shutdown, payload 0..40 bytes (both sides of the inline 32 bytes)"),
+        Q("msg_allocator", "c11_shutdown.c", func="harness_allocator", unwind=6, unwindset={"memcpy.0": 42}, timeout=600,
+          bounds="3 buffers, payload 0..40, parked until GVT / freed / recycled, arbitrary GVT"),
+        c12m("rs_realloc_a2", "harness_realloc", "quick", 2, 4, 1, cost=9),
+        c18("random", "harness_random", "quick", bounds="all 2^256 generator states"),
+        c05("take_8", "harness_take", "quick", 4, 1, cost=5),
+    ],
+)
